@@ -46,3 +46,21 @@ Proof.
   cbn [bind py_add]. reflexivity.
 Qed.
 Print Assumptions gen_create_packet_is_model.
+
+(* ================= the property C13, stated of the function generated from the source =================
+   inside the ranges the code's create_ccsds_packet (as translated) returns the packet whose bit string is the seven header
+   fields at their CCSDS positions followed by the data, and outside them it raises ValueError and constructs nothing *)
+Theorem generated_create_packet_meets_C13 v t s a f c data : in_range v t s a f c data ->
+  exists p, gen_create_packet (VBytes data) (VInt v) (VInt t) (VInt s) (VInt a) (VInt f) (VInt c) = Ok (VBytes p) /\
+            bits_of_bytes p = header_bits v t s a f c (zlen data - 1) ++ bits_of_bytes data /\
+            header_values p = [v; t; s; a; f; c; zlen data - 1].
+Proof.
+  intro R. exists (packet v t s a f c data). rewrite gen_create_packet_is_model, (create_ok _ _ _ _ _ _ _ R).
+  split; [reflexivity|]. split; [now apply layout|now apply accessors_inverse].
+Qed.
+Print Assumptions generated_create_packet_meets_C13.
+Theorem generated_create_packet_rejects v t s a f c data :
+  ~ (0 <= v <= 7 /\ 0 <= t <= 1 /\ 0 <= s <= 1 /\ 0 <= a <= 2047 /\ 0 <= f <= 3 /\ 0 <= c <= 16383 /\ 1 <= zlen data <= 65536) ->
+  gen_create_packet (VBytes data) (VInt v) (VInt t) (VInt s) (VInt a) (VInt f) (VInt c) = Err EValue.
+Proof. intro H. now rewrite gen_create_packet_is_model, (create_rejects _ _ _ _ _ _ _ H). Qed.
+Print Assumptions generated_create_packet_rejects.
